@@ -99,39 +99,42 @@ type Result struct {
 
 // result classes (shared with the model)
 const (
-	cOK            = 0
-	cTimeout       = 1
-	cBadStatus     = 2
-	cConn          = 3 // read error: EOF, reset, malformed bytes
-	cInvalidState  = 4
-	cSessionHdr    = 5
-	cAuthSetup     = 6
-	cCTMissing     = 7
-	cCTUnsupported = 8
-	cSDPInvalid    = 9
-	cBaseInvalid   = 10
-	cThInvalid     = 11
-	cSrvTCP        = 12
-	cSrvUDP        = 13
-	cDelivery      = 14
-	cNoServerPorts = 15
-	cNoInterleaved = 16
-	cBadInterl     = 17
-	cInterlInUse   = 18
-	cProfile       = 19
-	cUnhandledReq  = 20
-	cFrame         = 21
-	cTerminated    = 22
-	cUDPTimeout    = 23
-	cTCPTimeout    = 24
-	cURLParse      = 25
-	cBackChannel   = 26
-	cResolve       = 27
-	cH264PM0       = 28
-	cNoContentBase = 29
-	cDifferentURLs = 34 // caller passed a base URL other than the session's: outside the model
-	cSkipped       = 98
-	cOther         = 99
+	cOK               = 0
+	cTimeout          = 1
+	cBadStatus        = 2
+	cConn             = 3 // read error: EOF, reset, malformed bytes
+	cInvalidState     = 4
+	cSessionHdr       = 5
+	cAuthSetup        = 6
+	cCTMissing        = 7
+	cCTUnsupported    = 8
+	cSDPInvalid       = 9
+	cBaseInvalid      = 10
+	cThInvalid        = 11
+	cSrvTCP           = 12
+	cSrvUDP           = 13
+	cDelivery         = 14
+	cNoServerPorts    = 15
+	cNoInterleaved    = 16
+	cBadInterl        = 17
+	cInterlInUse      = 18
+	cProfile          = 19
+	cUnhandledReq     = 20
+	cFrame            = 21
+	cTerminated       = 22
+	cUDPTimeout       = 23
+	cTCPTimeout       = 24
+	cURLParse         = 25
+	cBackChannel      = 26
+	cResolve          = 27
+	cH264PM0          = 28
+	cNoContentBase    = 29
+	cTooManyRedirects = 35
+	cNoTransport      = 36
+	cInvalidMediaURL  = 37
+	cDifferentURLs    = 34 // caller passed a base URL other than the session's: outside the model
+	cSkipped          = 98
+	cOther            = 99
 )
 
 func classify(err error) int {
@@ -223,6 +226,12 @@ func classify(err error) int {
 		return cResolve
 	case strings.HasPrefix(msg, "Content-Base header not provided"):
 		return cNoContentBase
+	case strings.HasPrefix(msg, "too many redirects"):
+		return cTooManyRedirects
+	case strings.HasPrefix(msg, "no media has been set up"):
+		return cNoTransport
+	case strings.HasPrefix(msg, "invalid media URL"):
+		return cInvalidMediaURL
 	case strings.HasPrefix(msg, "parse "), strings.HasPrefix(msg, "unsupported scheme"),
 		strings.HasPrefix(msg, "URLs with"):
 		return cURLParse
